@@ -155,7 +155,7 @@ MARK_FNS = {
             {'loop_start': 0, 'text': 'let ghost s0 = *self;'},
             {'anchor': 'return;', 'nth': 0, 'where': 'before', 'text': 'proof { lemma_mark_finish(*old(self), *self, ptr as int); } ' + PRES_PROOF},
             {'anchor': 'return;', 'nth': 1, 'where': 'before', 'text': 'proof { lemma_mark_finish(*old(self), *self, ptr as int); } ' + PRES_PROOF},
-            {'anchor': 'self.heap_map.mark(ptr);', 'where': 'after',
+            {'anchor': 'self.heap_map.mark(ptr);', 'nth': 0, 'where': 'after',
              'text': 'proof { node = ptr as int; gv = vcell; lemma_mark_node(*old(self), s0, *self, node); }'},
             # end of one iteration: the node is finished (its only possibly unmarked child is the new `ptr`)
             {'loop_end': 0, 'text': 'proof { lemma_mark_done(*old(self), *self, node, ptr as int); }'},
